@@ -32,13 +32,28 @@ func (req *SrvReq) answered() bool {
 
 // Respond to the request with Rerror message
 func (req *SrvReq) RespondError(err interface{}) {
+	var ename string
+	ecode := uint32(EIO)
 	switch e := err.(type) {
 	case *Error:
-		_ = PackRerror(req.Rc, e.Error(), uint32(e.Errornum), req.Conn.Dotu)
+		ename, ecode = e.Error(), uint32(e.Errornum)
 	case error:
-		_ = PackRerror(req.Rc, e.Error(), uint32(EIO), req.Conn.Dotu)
+		ename = e.Error()
 	default:
-		_ = PackRerror(req.Rc, fmt.Sprintf("%v", e), uint32(EIO), req.Conn.Dotu)
+		ename = fmt.Sprintf("%v", e)
+	}
+
+	if PackRerror(req.Rc, ename, ecode, req.Conn.Dotu) != nil {
+		// the text does not fit into msize (which holds at least a header
+		// and a few characters): send as much of it as does
+		n := len(req.Rc.Buf) - (4 + 1 + 2 + 2 + 4)
+		if n < 0 {
+			n = 0
+		}
+		if n < len(ename) {
+			ename = ename[:n]
+		}
+		_ = PackRerror(req.Rc, ename, ecode, req.Conn.Dotu)
 	}
 
 	req.Respond()
